@@ -16,6 +16,7 @@ inductive FileId where
   | seg (id : Nat)
   | cas (hash : Bytes)          -- cas/<hh>/<hh>/<rest>, canonical path of `hash`
   | staging (n : Nat)           -- staging/<n-th temp file created>
+  | stray (path : List Bytes)   -- any other regular file below cas/ (planted garbage), by components
   deriving DecidableEq, Repr
 
 structure File where
